@@ -45,7 +45,7 @@ def mutant_gate(pid):
     try:
         ev = os.path.join(root, 'evidence', pid + '.json')
         d = json.load(open(ev))
-        d['coverage']['mutant_gate'] = json.load(open(os.path.join(root, 'evidence', 'mutant_gate_%s.json' % pid)))
+        d['coverage']['mutant_gate'] = json.load(open(os.path.join(root, 'gate_results', 'mutant_gate_%s.json' % pid)))
         json.dump(d, open(ev, 'w'), indent=1, default=repr)
     except Exception:
         pass
